@@ -165,6 +165,39 @@ def consumers(root, extra=(), cwd=None, do_annotate=True):
     return out
 
 
+def annotate_subdirs(root, cov, unspec, extra=(), cwd=None):
+    """`annotate -r DIR` for every directory of the tree (also those inside
+    excluded regions), each on the untouched tree: returns {dir: (examined,
+    expected)}.  The tree is restored after every run."""
+    import shutil
+
+    kinds = tree_kinds(root)
+    dirs = sorted(p for p, k in kinds.items() if k == "dir" and not p.startswith(".git"))
+    out = {}
+    backup = str(root) + ".bak"
+    if os.path.exists(backup):
+        shutil.rmtree(backup)
+    shutil.copytree(root, backup, symlinks=True)
+    for d in dirs:
+        before = read_tree(root)
+        an = run_cli([*extra, "--root", str(root), "annotate", "--copyright", "Jane", "--year", "2020", "--recursive", "--fallback-dot-license", str(root / d)], cwd=cwd)
+        if an.exc or an.exit_code not in (0, 1, 2):
+            raise HarnessError(f"annotate -r {d} failed: {an.brief()}")
+        after = read_tree(root)
+        ex = set()
+        for p in set(after) | set(before):
+            if after.get(p) != before.get(p):
+                ex.add(p[: -len(".license")] if p.endswith(".license") and p not in before else p)
+        want = {p for p in cov if p.startswith(d + "/")}
+        open_ = {p for p in unspec if p.startswith(d + "/")}
+        out[d] = (ex, want, open_)
+        if ex:
+            shutil.rmtree(root)
+            shutil.copytree(backup, root, symlinks=True)
+    shutil.rmtree(backup)
+    return out
+
+
 def compare(r: R, label, sigbase, cov, unspec, got):
     for who, s in got.items():
         extra = sorted(p for p in s - cov if p not in unspec)
@@ -191,6 +224,15 @@ def ev_names(c) -> R:
     got = consumers(root)
     label = f"names at {c['loc'] or './'} as {c['kind']}" + (f" ({c['names'][0]})" if c["names"] else "")
     compare(r, label, "names", cov, unspec, got)
+    if c["names"] is None:
+        root = fresh_dir("c03")
+        materialise(root, names_recipe(c["loc"], c["kind"], c["names"]))
+        for d, (ex, want, open_) in annotate_subdirs(root, cov, unspec).items():
+            r.validated += 1
+            for p in sorted(p for p in ex - want if p not in open_):
+                r.violation(f"annotate-r-subdir|examined-excluded|names|{shape_of(p)}", f"{label}: `annotate -r {d}` touches {p!r}, which is not a covered file")
+            for p in sorted(want - ex):
+                r.violation(f"annotate-r-subdir|skipped-covered|names|{shape_of(p)}", f"{label}: `annotate -r {d}` skips the covered file {p!r}")
     r.evals = 4
     r.outcome = f"covered={min(len(cov), 3)}"
     r.nontrivial = len(cov) > 1
@@ -240,9 +282,17 @@ def ev_git(c) -> R:
     got = consumers(root)
     label = f"git repo with .gitignore {rules}{' + d/.gitignore' if c['nested'] else ''}"
     compare(r, label, "git", cov, unspec, got)
-    for who, s in got.items():
-        for p in sorted(s & ign):
-            pass
+    root = fresh_dir("c03")
+    materialise(root, rec)
+    gitrepo.git(root, "init", "-q")
+    gitrepo.git(root, "add", "-f", "--", *tracked)
+    if c["nested"]:
+        (root / "d" / ".gitignore").write_text("*.tmp\n!x.tmp\nz.py\n")
+    (root / ".gitignore").write_text("".join(x + "\n" for x in rules))
+    for d, (ex, want, open_) in annotate_subdirs(root, cov, unspec).items():
+        r.validated += 1
+        for p in sorted(p for p in ex - want if p not in open_ and not p.startswith(".git/")):
+            r.violation(f"annotate-r-subdir|examined-excluded|git|{shape_of(p)}", f"{label}: `annotate -r {d}` touches {p!r}, which is not a covered file")
     r.evals = 4
     r.outcome = f"ignored={min(len(ign), 4)}"
     r.nontrivial = bool(ign)
